@@ -55,6 +55,10 @@ func runC05(p *Prog, r *Result) {
 	checkMinifyGate(p, r, si)
 	r.Rule("R05g", "must-sink: every comment field of every node a printer function queues comments for is queued on every path through the scope where that node is bound (or handed to a method that does)", 24)
 	checkCommentMustSink(p, r, si, "R05g", c05MustSinkExceptions)
+	r.Rule("R05h", "a loop that splits a comment list at a position keeps the whole rest of the list (list[i:]), not only the first comment past the position", 3)
+	checkCommentSplits(p, r, "R05h", c05SplitExceptions)
+	r.Rule("R05j", "a printer function queues or hands on, on every path to its exit, each comment list it receives as a parameter", 4)
+	checkCommentParamsSunk(p, r, "R05j")
 	r.Rule("R05i", "the comment queue is empty wherever it is overwritten or dropped: every call made while the queue is set aside, or on the throw-away printer, flushes what it queues before returning", 2)
 	checkQueueEmptyWhenOverwritten(p, r, si, "R05i")
 	// the one construction site
@@ -1390,7 +1394,17 @@ var c05MustSinkExceptions = map[string]string{
 	"syntax.(Printer).ifClause#el.CondLast": "el is only printed here when it is a plain else branch, which has no condition list (an elif goes through the recursive call)",
 }
 
+// c05SplitExceptions: function#list -> why one kept comment is all there can be.
+var c05SplitExceptions = map[string]string{
+	"syntax.(Printer).elemJoin#el.Comments": "the comments of an array element past its start are the one trailing comment of its line: the parser attaches what follows to the next element or to the array's Last (a comment continued by backslash-newline was tried and both were kept)",
+	"syntax.(Printer).stmtList#s.Comments":  "past the end of the command a statement holds its one trailing comment (and the one after a here-document operator ends the loop only after the others were queued as mid-comments); tried with continued comments, all kept",
+}
+
 var c05Controls = []Control{
+	{Name: "else-comments-split-keeps-one", Rule: "R05h", WantKey: "ifClause#split 1 of ic.Last", File: "syntax/printer.go",
+		Mutate: ctlReplaceAnywhere("\t\t\t\t// All the remaining comments come after \"else\".\n\t\t\t\tleft = ic.Last[i:]\n", "\t\t\t\t_ = i\n\t\t\t\tleft = append(left, c)\n")},
+	{Name: "statement-list-returns-before-its-last-comments", Rule: "R05j", WantKey: "stmtList#the comments in last", File: "syntax/printer.go",
+		Mutate: ctlReplaceAnywhere("\tif len(stmts) == 1 && !sep {\n\t\tp.wantNewline = false\n\t}\n", "\tif len(stmts) == 1 && !sep {\n\t\tp.wantNewline = false\n\t\treturn\n\t}\n")},
 	{Name: "nested-flush-depends-on-line", Rule: "R05i", WantKey: "flushHeredocs#p.pendingComments = coms overwrites an empty queue", File: "syntax/printer.go",
 		Mutate: ctlReplaceAnywhere("\tp.stmtList(stmts, last)\n\tif closing.IsValid() {\n\t\tp.flushComments()", "\tp.stmtList(stmts, last)\n\tif closing.Line() > p.line {\n\t\tp.flushComments()")},
 	{Name: "testdecl-body-comments-not-queued", Rule: "R05g", WantKey: "command#cmd.Body.Comments", File: "syntax/printer.go",
